@@ -62,3 +62,55 @@ Theorem c11_flip_bit_xor : forall f k b, (k < length f)%nat ->
   flip_bit f k b = xor_bytes f (single_bit_error (length f) k b).
 Proof. exact flip_bit_xor. Qed.
 Print Assumptions c11_flip_bit_xor.
+
+(* ---- statements about the C code AS TRANSLATED on this run (Gen/Sites.v: every guard, declaration, conversion and call argument with the
+   types clang computed; tools/sites.py), for every memory m and every environment: tie #1 extended from constants to arithmetic and
+   control flow.  Vocabulary in Spec/CodeSpec.v, evaluator and interpreter in Base/CExpr.v, proofs in Proofs/SitesProofs.v. ---- *)
+From Coq Require Import String.
+From LW Require Import Base.CExpr Gen.Sites Spec.CodeSpec Proofs.SitesProofs.
+Local Open Scope string_scope.
+Local Open Scope Z_scope.
+
+(* len = frame_len, frame = the address of the frame *)
+Theorem c11_code_frame_verify : forall m rho len frame,
+  rho "frame_len" = len -> rho "frame" = frame ->
+  (0 <= len < 2 ^ 64 -> ceval rho m (site sites_libwifi_frame_verify "if#0") = Some (b2z (len <? 4))) /\
+  (4 <= len < 2 ^ 63 -> 0 <= frame -> frame + len < 2 ^ 63 ->
+   ceval rho m (site sites_libwifi_frame_verify "call:libwifi_calculate_fcs#0:1") = Some (len - 4) /\
+   ceval rho m (site sites_libwifi_frame_verify "call:memcpy#0:1") = Some (frame + len - 4) /\
+   ceval rho m (site sites_libwifi_frame_verify "call:memcpy#0:2") = Some 4).
+Proof. exact code_frame_verify. Qed.
+Print Assumptions c11_code_frame_verify.
+
+(* the CRC routine: one turn of the inner loop (mask, then the shifted and conditionally reduced register), the final
+   complement, the header and the step of the outer loop (i = the index, n = message_len) *)
+Theorem c11_code_crc_step : forall m rho crc i n,
+  0 <= crc < 2 ^ 32 -> 0 <= i < n -> n < 2 ^ 31 ->
+  (exists mk,
+     ceval (upd rho "crc" crc) m (site sites_libwifi_crc32 "set:mask#0") = Some mk /\
+     ceval (upd (upd rho "crc" crc) "mask" mk) m (site sites_libwifi_crc32 "set:crc#2") =
+       Some (Z.lxor (Z.shiftr crc 1) (if Z.odd crc then 3988292384 else 0))) /\
+  ceval (upd rho "crc" crc) m (site sites_libwifi_crc32 "ret#0") = Some (Z.lxor crc 4294967295) /\
+  ceval (upd (upd rho "i" i) "message_len" n) m (site sites_libwifi_crc32 "loop#0") = Some (b2z (i <? n)) /\
+  ceval (upd (upd rho "i" i) "message_len" n) m (site sites_libwifi_crc32 "set:i#1") = Some (i + 1).
+Proof. exact code_crc_step. Qed.
+Print Assumptions c11_code_crc_step.
+
+(* libwifi_crc32 AS TRANSLATED from crc.c on this run - both loops, the int index, the unsigned register, the load message[i],
+   the mask -(crc & 1), the final complement - computes the model's CRC-32 of EVERY message of up to 2^31 - 1 octets placed anywhere
+   in memory, reading nothing but the message (anything else makes execution stuck), within an explicit number of steps; with the
+   theorems above that is the IEEE 802.3 FCS.  A non-positive length reads nothing and returns the CRC of the empty message. *)
+From LW Require Import Base.Bytes Model.CRC Proofs.CodeIter Proofs.CodeCRC.
+
+Theorem c11_code_crc32_refines_model : forall msg start rho,
+  wfbytes msg -> 0 < start -> start + zlen msg < 2 ^ 62 -> zlen msg < 2 ^ 31 ->
+  observe (exec (60 * length msg + 60) (mem_at start msg) (upd (upd rho "message" start) "message_len" (zlen msg)) []
+                body_libwifi_crc32) = Some (Some (crc32_list msg), []).
+Proof. exact code_crc32_refines. Qed.
+Print Assumptions c11_code_crc32_refines_model.
+
+Theorem c11_code_crc32_nonpositive_length : forall m start n rho,
+  - 2 ^ 31 <= n <= 0 ->
+  observe (exec 10 m (upd (upd rho "message" start) "message_len" n) [] body_libwifi_crc32) = Some (Some 0, []).
+Proof. exact code_crc32_nonpositive_length_mem. Qed.
+Print Assumptions c11_code_crc32_nonpositive_length.
